@@ -62,6 +62,12 @@ def abs_apply(a, st):
             return None
         if not isinstance(sl, dict) and len(sl) == 0:
             return None
+        if len(set(idx)) != len(idx):
+            # an index list with repeats: keys repeat, and everything that needs
+            # unique keys later (items() behind a prefetch or a catch, keys() of a
+            # concatenation) refuses loudly
+            return a.clone(elems=[a.elems[i] for i in idx], n=len(idx), items=False,
+                           keys=False)
         return a.clone(elems=[a.elems[i] for i in idx], n=len(idx))
     if op == 'batch':
         bs = st['bs']
@@ -146,8 +152,9 @@ def abs_apply(a, st):
         b = abs_source({'kind': st.get('kind', 'list'), 'n': st['n']},
                        st.get('offset', 100))
         e = None if a.elems is None else a.elems + b.elems
+        uniq = _keys_disjoint(a, b)
         return a.clone(elems=e, n=a.n + b.n,
-                       items=a.items and b.items, keys=a.keys and b.keys)
+                       items=a.items and b.items and uniq, keys=a.keys and b.keys and uniq)
     if op == 'intersperse':
         if not a.sized or not a.n or not st['n']:
             return None
@@ -158,8 +165,9 @@ def abs_apply(a, st):
             order = sorted([((i + 1) / ln, d, i) for d, ln in enumerate((a.n, b.n))
                             for i in range(ln)])
             e = [(a.elems, b.elems)[d][i] for _, d, i in order]
+        uniq = _keys_disjoint(a, b)
         return a.clone(elems=e, n=a.n + b.n,
-                       items=a.items and b.items, keys=a.keys and b.keys)
+                       items=a.items and b.items and uniq, keys=a.keys and b.keys and uniq)
     if op == 'zip':
         if not a.sized or a.n != st['n'] or a.n == 0:
             return None
@@ -189,6 +197,16 @@ def abs_apply(a, st):
             return None
         return a.clone()
     raise ValueError(op)
+
+
+def _keys_disjoint(a, b):
+    """keys are 'k<first source id>': partners whose id ranges overlap have
+    common keys, and keys() / items() of the combination refuse loudly"""
+    if a.elems is None or b.elems is None:
+        return True
+    fa = {x[0] for x in a.elems if x}
+    fb = {x[0] for x in b.elems if x}
+    return not (fa & fb)
 
 
 def abs_eval(desc):
